@@ -422,17 +422,20 @@ let e2e_run (line : string) : string =
 (* ---------- registration histories (see harness/cmd/h_reg/main.go) ---------- *)
 let reg_run (line : string) : string =
   let secs = split_on_string " | " line in
-  let reg = ref (match fields (List.hd secs) with
+  (* the whole state lives in the Coq model (Model/RegLife.v): registry, running flag, connection counter, serving call *)
+  let st = ref (match fields (List.hd secs) with
       | "svc" :: v :: p :: ver :: u :: d :: _ ->
-        new_service (bytes_of_hex v) (bytes_of_hex p) (bytes_of_hex ver) (bytes_of_hex u) (bytes_of_hex d)
+        rl_init (bytes_of_hex v) (bytes_of_hex p) (bytes_of_hex ver) (bytes_of_hex u) (bytes_of_hex d)
       | _ -> failwith "reg-run: no svc") in
   let hs = (fun _ m _ -> Do (AStdError (EMethodNotImplemented, m), fun r -> Ret (res_is_error r))) in
-  let draining = ref false in
+  let run es = let (s', _) = rl_run !st es in st := s' in
+  let connected () = !st.rl_active <> O in
+  let draining () = !st.rl_serving && not !st.rl_running in
   let direct (req : send_res) : n list =
     match req with
     | SSent msg ->
-      let st = step_conn !reg hs (cs_init None) (EvData msg) in
-      st.cs_w.w_out
+      let cs = step_conn !st.rl_reg hs (cs_init None) (EvData msg) in
+      cs.cs_w.w_out
     | _ -> [] in
   let client (reply : n list) (sch : (n list * fkind) list) : string =
     let (r, _) = client_receive (nat_of_int 4096) { rbuf = reply; chunks = [] } in
@@ -442,21 +445,20 @@ let reg_run (line : string) : string =
   let out = List.map (fun sec ->
       match fields sec with
       | "reg" :: name :: descr :: _ ->
-        let (r', refused) = register !reg (bytes_of_hex name) (bytes_of_hex descr) in
-        reg := r'; if refused then "x" else "o"
-      | ("listen" | "listen2") :: _ -> if !reg.r_running then "already" else (reg := set_running !reg true; "listening")
-      | "shutdown" :: _ -> if !reg.r_running then (reg := set_running !reg false; draining := false; "stopped") else "notlistening"
-      (* Shutdown with a connection still open: the service keeps serving it; for the registry it is still listening *)
-      | "shutdown-keep" :: _ -> if !reg.r_running && not !draining then (draining := true; "draining") else "notlistening"
-      | "drop" :: _ -> if !draining then (draining := false; reg := set_running !reg false; "stopped") else "notdraining"
+        let (s', o) = rl_step !st (EvRegister (bytes_of_hex name, bytes_of_hex descr)) in
+        st := s'; (match o with ORefused -> "x" | OAccepted -> "o" | _ -> "?")
+      | ("listen" | "listen2") :: _ -> if !st.rl_serving then "already" else (run (events_of RListen); "listening")
+      | "shutdown" :: _ -> if !st.rl_serving then (run (events_of RShutdownAll); "stopped") else "notlistening"
+      | "shutdown-keep" :: _ -> if !st.rl_serving && not (draining ()) then (run (events_of RShutdownKeep); "draining") else "notlistening"
+      | "drop" :: _ -> if draining () then (run (events_of RDrop); "stopped") else "notdraining"
       | "info" :: _ ->
         let rep = direct (client_send N0 (org_varlink_service @ [n_of_int 46] @ m_GetInfo) PNone) in
-        "info " ^ hex_of_bytes rep ^ (if !reg.r_running then " client " ^ client rep info_schema else "")
+        "info " ^ hex_of_bytes rep ^ (if connected () then " client " ^ client rep info_schema else "")
       | "call" :: m :: _ ->
         "call " ^ hex_of_bytes (direct (client_send N0 (bytes_of_hex m) PNone))
       | "descr" :: name :: _ ->
         let rep = direct (get_descr_request (bytes_of_hex name)) in
-        "descr " ^ hex_of_bytes rep ^ (if !reg.r_running then " client " ^ client rep descr_schema else "")
+        "descr " ^ hex_of_bytes rep ^ (if connected () then " client " ^ client rep descr_schema else "")
       | _ -> failwith ("reg-run: bad op " ^ sec)) (List.tl secs) in
   String.concat " ; " out
 
